@@ -17,11 +17,24 @@ pub struct StepOut {
     pub violations: Vec<(String, String)>,
     /// do not expand the successor (e.g. absorbing or out-of-scope states)
     pub prune: bool,
+    /// cases evaluated by per-state probes run inside this transition (E1 over reachable states)
+    pub probe_cases: u64,
+    /// of which non-trivial by the checker's rule
+    pub probe_nontrivial: u64,
+    /// named counters (probe outcome classes)
+    pub counters: Vec<(&'static str, u64)>,
 }
 
 impl StepOut {
     pub fn fail(&mut self, key: &str, detail: String) {
         self.violations.push((key.to_string(), detail));
+    }
+    pub fn count(&mut self, name: &'static str, n: u64) {
+        if let Some(e) = self.counters.iter_mut().find(|e| e.0 == name) {
+            e.1 += n;
+        } else {
+            self.counters.push((name, n));
+        }
     }
 }
 
@@ -52,6 +65,9 @@ pub struct Outcome {
     pub depth_completed: usize,
     pub per_layer: Vec<u64>,
     pub histogram: BTreeMap<String, u64>,
+    pub probe_cases: u64,
+    pub probe_nontrivial: u64,
+    pub counters: BTreeMap<String, u64>,
 }
 
 struct Cand<S> {
@@ -66,6 +82,9 @@ struct ChunkOut<S> {
     transitions: u64,
     hist: BTreeMap<(u16, &'static str), u64>,
     viols: Vec<(u32, u16, String, String)>,
+    probe_cases: u64,
+    probe_nontrivial: u64,
+    counters: BTreeMap<&'static str, u64>,
 }
 
 fn path_of(parents: &[(u32, u16)], mut id: u32) -> (usize, Vec<u16>) {
@@ -90,6 +109,8 @@ pub fn explore<M: Machine>(rep: &mut Report, name: &str, m: &M, starts: Vec<M::S
     let mut frontier: Vec<(u32, M::State)> = vec![];
     let mut hist: BTreeMap<(u16, &'static str), u64> = BTreeMap::new();
     let mut transitions = 0u64;
+    let (mut probe_cases, mut probe_nontrivial) = (0u64, 0u64);
+    let mut counters: BTreeMap<String, u64> = BTreeMap::new();
     let mut per_layer = vec![];
     let mut kept: BTreeMap<String, u64> = BTreeMap::new();
     let mut record = |rep: &mut Report, parents: &[(u32, u16)], parent: u32, action: Option<u16>, key: String, detail: String| {
@@ -134,7 +155,7 @@ pub fn explore<M: Machine>(rep: &mut Report, name: &str, m: &M, starts: Vec<M::S
         let chunks: Vec<&[(u32, M::State)]> = frontier.chunks(chunk.max(1)).collect();
         let seen_ref = &seen;
         let results: Vec<Result<ChunkOut<M::State>, String>> = par_map(&chunks, |c| {
-            let mut o = ChunkOut { cands: vec![], transitions: 0, hist: BTreeMap::new(), viols: vec![] };
+            let mut o = ChunkOut { cands: vec![], transitions: 0, hist: BTreeMap::new(), viols: vec![], probe_cases: 0, probe_nontrivial: 0, counters: BTreeMap::new() };
             let mut local: HashSet<u128> = HashSet::new();
             for (id, s) in c.iter() {
                 for (ai, a) in acts.iter().enumerate() {
@@ -142,6 +163,11 @@ pub fn explore<M: Machine>(rep: &mut Report, name: &str, m: &M, starts: Vec<M::S
                     let n = m.step(s, a, &mut out);
                     o.transitions += 1;
                     *o.hist.entry((ai as u16, out.label)).or_insert(0) += 1;
+                    o.probe_cases += out.probe_cases;
+                    o.probe_nontrivial += out.probe_nontrivial;
+                    for (k, n) in out.counters.drain(..) {
+                        *o.counters.entry(k).or_insert(0) += n;
+                    }
                     for (key, detail) in out.violations.drain(..) {
                         o.viols.push((*id, ai as u16, key, detail));
                     }
@@ -161,6 +187,11 @@ pub fn explore<M: Machine>(rep: &mut Report, name: &str, m: &M, starts: Vec<M::S
             match r {
                 Ok(o) => {
                     transitions += o.transitions;
+                    probe_cases += o.probe_cases;
+                    probe_nontrivial += o.probe_nontrivial;
+                    for (k, n) in o.counters {
+                        *counters.entry(k.to_string()).or_insert(0) += n;
+                    }
                     for (k, v) in o.hist {
                         *hist.entry(k).or_insert(0) += v;
                     }
@@ -194,8 +225,8 @@ pub fn explore<M: Machine>(rep: &mut Report, name: &str, m: &M, starts: Vec<M::S
     rep.states += states;
     rep.transitions += transitions;
     rep.traces += transitions;
-    rep.evaluations += transitions;
-    rep.distinct_nontrivial += states;
+    rep.evaluations += transitions + probe_cases;
+    rep.distinct_nontrivial += states + probe_nontrivial;
     let mut histogram = BTreeMap::new();
     for ((ai, label), n) in &hist {
         *histogram.entry(format!("{}:{}", m.action_name(&acts[*ai as usize]), label)).or_insert(0) += *n;
@@ -213,9 +244,10 @@ pub fn explore<M: Machine>(rep: &mut Report, name: &str, m: &M, starts: Vec<M::S
         json!({
             "states": states, "transitions": transitions, "depth": depth_completed, "states_per_layer": per_layer,
             "actions": acts.len(), "outcomes": histogram,
+            "probe_cases": probe_cases, "probe_nontrivial": probe_nontrivial, "counters": counters,
         }),
     );
-    Outcome { states, transitions, depth_completed, per_layer, histogram }
+    Outcome { states, transitions, depth_completed, per_layer, histogram, probe_cases, probe_nontrivial, counters }
 }
 
 /// Re-execute a recorded path; returns the violations (key, detail) seen along it.
